@@ -61,6 +61,10 @@ func buildOptionOk(ctx *build.Context, tag string) bool {
 // buildTagOk returns true if a build tag matches, false otherwise
 // if first character is !, result is negated.
 func buildTagOk(ctx *build.Context, s string) (r bool) {
+	// As for the toolchain (go/build/constraint), an empty word, "!" and "!!x" never match.
+	if s == "" || s == "!" || strings.HasPrefix(s, "!!") {
+		return false
+	}
 	not := s[0] == '!'
 	if not {
 		s = s[1:]
